@@ -501,3 +501,396 @@ Definition opt_aval_eqb (a b : option aval) : bool :=
 Definition only_in (d : dest) (o : api_out) (k : string) (v : aval) : bool :=
   opt_aval_eqb (lookup_in d o k) (Some v)
   && forallb (fun d' => dest_eqb d' d || opt_aval_eqb (lookup_in d' o k) None) [DGp; DGen; DReq].
+
+(* ===================================================================================== *)
+(* Correspondence: observations of the REAL code, `agree` (model = implementation) and    *)
+(* `holds` (the property's clauses evaluated on the observed behaviour)                   *)
+(* ===================================================================================== *)
+Local Open Scope Z_scope.
+
+Definition bool_eqb := Bool.eqb.
+
+Definition res_bool_eqb (a b : res bool) : bool :=
+  match a, b with
+  | Ok x, Ok y => Bool.eqb x y
+  | Raise x, Raise y => exn_eqb x y
+  | _, _ => false
+  end.
+
+Definition res_Z_eqb (a b : res Z) : bool :=
+  match a, b with
+  | Ok x, Ok y => Z.eqb x y
+  | Raise x, Raise y => exn_eqb x y
+  | _, _ => false
+  end.
+
+Fixpoint list_eqb {A : Type} (eqb : A -> A -> bool) (a b : list A) : bool :=
+  match a, b with
+  | [], [] => true
+  | x :: a', y :: b' => eqb x y && list_eqb eqb a' b'
+  | _, _ => false
+  end.
+
+Fixpoint list_eqb2 {A B : Type} (eqb : A -> B -> bool) (a : list A) (b : list B) : bool :=
+  match a, b with
+  | [], [] => true
+  | x :: a', y :: b' => eqb x y && list_eqb2 eqb a' b'
+  | _, _ => false
+  end.
+
+Definition opt_bool_eqb (a b : option bool) : bool :=
+  match a, b with
+  | None, None => true
+  | Some x, Some y => Bool.eqb x y
+  | _, _ => false
+  end.
+
+(* ---- SequenceIterator operation sequences ---- *)
+Inductive sop := SNext | SPrev | SHasNext | SHasPrev | SCurrent.
+Inductive sobs := OZ (z : Z) | OB (b : bool) | OStop.
+
+Definition sobs_eqb (a b : sobs) : bool :=
+  match a, b with
+  | OZ x, OZ y => Z.eqb x y
+  | OB x, OB y => Bool.eqb x y
+  | OStop, OStop => true
+  | _, _ => false
+  end.
+
+Definition si_step (it : seqit) (o : sop) : seqit * sobs :=
+  match o with
+  | SNext => let '(it', v) := si_next it in (it', OZ v)
+  | SPrev => let '(it', r) := si_prev it in (it', match r with Ok v => OZ v | Raise _ => OStop end)
+  | SHasNext => (it, OB (si_has_next it))
+  | SHasPrev => (it, OB (si_has_prev it))
+  | SCurrent => (it, OZ (si_current it))
+  end.
+
+Fixpoint si_run (it : seqit) (ops : list sop) : list sobs :=
+  match ops with
+  | [] => []
+  | o :: r => let '(it', x) := si_step it o in x :: si_run it' r
+  end.
+
+(* ---- AdaptivePopulationSize call sequences: (len, any, quality, complexity improved) ---- *)
+Fixpoint adaptive_run (it : seqit) (maxp : option Z) (calls : list (Z * bool * bool * bool)) : list (res Z) :=
+  match calls with
+  | [] => []
+  | (len, a, q, c) :: r =>
+      let '(it', x) := adaptive_next it maxp len a q c in x :: adaptive_run it' maxp r
+  end.
+
+Fixpoint depth_run (adaptive : bool) (max_depth max_stag cur : Z) (stags : list Z) : list Z :=
+  match stags with
+  | [] => []
+  | s :: r => let '(cur', x) := depth_next adaptive max_depth max_stag cur s in
+              x :: depth_run adaptive max_depth max_stag cur' r
+  end.
+
+Inductive ucase :=
+| UTimer (timeout : option Q) (init minutes : Q) (iter : option Z) (old : bool) (obs_reached obs_flag : bool)
+| UBaseTimer (timeout : option Q) (elapsed : Q) (obs : bool)
+| UStop (l : limits) (s : kstate) (t : Q) (obs : option bool)       (* None: the real stop test raised *)
+| URsStop (l : limits) (t : Q) (iter : nat) (obs : option bool)
+| UGrouped (any_mode : bool) (cs : list (res bool)) (obs : res bool) (calls : nat)
+| UConst (initial : Z) (rate : Q) (maxp : option Z) (len : Z) (obs : Z)
+| UFib (n : Z) (obs : Z)
+| USeq (start maxv minv : option Z) (ops : list sop) (obs : list sobs)
+| UAdaptive (pop_size : Z) (maxp : option Z) (calls : list (Z * bool * bool * bool))
+            (obs_init : res Z) (obs : list (res Z))
+| UDepth (adaptive : bool) (start max_depth max_stag : Z) (stags : list Z) (obs : list Z)
+| UTables (gp gen common req : list string).
+
+Definition subset_s (a b : list string) : bool := forallb (fun k => mem_s k b) a.
+Definition same_set_s (a b : list string) : bool := subset_s a b && subset_s b a.
+
+Definition uagree (c : ucase) : bool :=
+  match c with
+  | UTimer timeout init minutes iter old r f =>
+      let m := opt_timer_reached timeout init minutes iter in
+      Bool.eqb m r && Bool.eqb (opt_timer_flag old m) f
+  | UBaseTimer timeout elapsed r => Bool.eqb (timer_reached timeout elapsed) r
+  | UStop l s t obs => opt_bool_eqb obs (Some (stop_test l 0 t t s))
+  | URsStop l t iter obs => opt_bool_eqb obs (Some (rs_stop_test l 0 t iter))
+  | UGrouped any_mode cs obs calls =>
+      let '(x, n) := if any_mode then grouped_any cs else grouped_all cs in
+      res_bool_eqb x obs && Nat.eqb n calls
+  | UConst initial rate maxp len obs => Z.eqb (const_rate_next initial rate maxp len) obs
+  | UFib n obs => Z.eqb (fibZ n) obs
+  | USeq start maxv minv ops obs => list_eqb sobs_eqb (si_run (si_make start maxv minv) ops) obs
+  | UAdaptive pop_size maxp calls obs_init obs =>
+      let '(it, i) := adaptive_make pop_size maxp in
+      res_Z_eqb i obs_init
+      && match i with
+         | Ok _ => list_eqb res_Z_eqb (adaptive_run it maxp calls) obs
+         | Raise _ => true
+         end
+  | UDepth adaptive start max_depth max_stag stags obs =>
+      list_eqb Z.eqb (depth_run adaptive max_depth max_stag start stags) obs
+  | UTables gp gen common req =>
+      same_set_s gp gp_fields && same_set_s gen gen_fields
+      && same_set_s common common_fields && same_set_s req req_fields
+  end.
+
+(* the time budget is zero / negative, or used up at `minutes` *)
+Definition budget_used (timeout : option Q) (minutes : Q) : bool :=
+  match timeout with Some t => Qle_bool t 0 || Qle_bool t minutes | None => false end.
+
+(* the property's clauses on one observed unit-level answer *)
+Definition uholds (c : ucase) : bool :=
+  match c with
+  | UTimer timeout init minutes iter old r f =>
+      (* a used-up budget is reported as reached (for clocks not before init_time) *)
+      implb (budget_used timeout minutes && Qle_bool init minutes
+             && match iter with Some i => Z.leb 0 i | None => true end) r
+  | UStop l s t obs =>
+      match obs with
+      | None => false                        (* a documented combination must not raise *)
+      | Some b =>
+          (* a reached limit stops the loop *)
+          implb (budget_used (tmo l) t && Qle_bool 0 t && Nat.leb 1 (gen_num s)) b
+          && implb (match nog l with Some n => Nat.ltb n (gen_num s) | None => false end) b
+          && implb (match esi l with Some (S m) => Nat.leb (S m) (stag s) | _ => false end) b
+          && implb (match est l with Some e => Qle_bool e (stag_duration t (stag_start s)) | None => false end) b
+      end
+  | URsStop l t iter obs =>
+      match obs with
+      | None => false
+      | Some b =>
+          implb (budget_used (tmo l) t && Qle_bool 0 t) b
+          && implb (match nog l with Some n => Nat.leb n iter | None => false end) b
+      end
+  | UConst initial rate maxp len obs =>
+      match truthy_max maxp with
+      | Some m => Z.leb obs m && implb (Qle_bool 0 rate) (Z.leb (Z.min (Z.max len initial) m) obs)
+      | None => implb (Qle_bool 0 rate) (Z.leb (Z.max len initial) obs)
+      end
+  | UAdaptive pop_size maxp calls obs_init obs =>
+      forallb (fun r => match r with
+                        | Ok v => match truthy_max maxp with
+                                  | Some m => implb (Z.leb MIN_POP_SIZE m) (Z.leb MIN_POP_SIZE v && Z.leb v m)
+                                              && implb (Z.ltb m MIN_POP_SIZE) (Z.leb v m)
+                                  | None => Z.leb MIN_POP_SIZE v
+                                  end
+                        | Raise _ => true
+                        end) obs
+      && match obs_init, truthy_max maxp with
+         | Ok v, Some m => implb (Z.leb pop_size m) (Z.leb v m)
+         | _, _ => true
+         end
+  | UDepth adaptive start max_depth max_stag stags obs =>
+      forallb (fun d => Z.leb d (Z.max start max_depth)) obs
+  | _ => true
+  end.
+
+Definition ucheck (c : ucase) : list bool := [uagree c; uholds c].
+
+(* ---- observed runs of the real optimisers ---- *)
+Inductive plabel := PInitial | PExtended | PEvolved | PFinal | POtherLabel.
+Definition plabel_eqb (a b : plabel) : bool :=
+  match a, b with
+  | PInitial, PInitial | PExtended, PExtended | PEvolved, PEvolved | PFinal, PFinal
+  | POtherLabel, POtherLabel => true
+  | _, _ => false
+  end.
+
+Record opop := {
+  p_label : plabel;
+  p_size : nat;          (* individuals in the recorded population *)
+  p_gen : nat;           (* keeper.generation_num at the iteration callback *)
+  p_stag : nat;          (* keeper.stagnation_iter_count *)
+  p_minutes : Q;         (* timer.spent_time at the callback, minutes *)
+  p_stagdur : Q;         (* keeper.stagnation_time_duration, minutes *)
+  p_popsize : Z }.       (* graph_optimizer_params.pop_size *)
+
+Record orun := {
+  r_populational : bool;
+  r_lim : limits;
+  r_maxpop : option Z;
+  r_adaptive : bool;               (* parameter_free scheme of the genetic optimisers *)
+  r_ok : bool;                     (* optimise() returned *)
+  r_pops : list opop;              (* populational: one entry per recorded population *)
+  r_started : nat;                 (* evolve steps started *)
+  r_broke : bool;                  (* a started step ended with EvaluationAttemptsError *)
+  r_evolved_sizes : list nat;      (* sizes of the unlabelled generations of the history *)
+  r_iters : nat;                   (* random search: current_iteration_num at the end *)
+  r_call_minutes : list Q;         (* random search: timer minutes at each objective call *)
+  r_end_minutes : Q;               (* timer minutes right after optimise() returned *)
+  r_wall_ms : Z }.
+
+Definition PROMPT_MS : Z := 20000.
+
+Definition is_evolved (p : opop) : bool := plabel_eqb (p_label p) PEvolved.
+
+(* pairs (previous recorded population, evolved population) *)
+Fixpoint step_pairs (ps : list opop) : list (opop * opop) :=
+  match ps with
+  | a :: ((b :: _) as r) => if is_evolved b then (a, b) :: step_pairs r else step_pairs r
+  | _ => []
+  end.
+
+Definition kstate_of (p : opop) : kstate := {| gen_num := p_gen p; stag := p_stag p; stag_start := 0 |}.
+
+(* the stop test on an observed population, with the observed stagnation duration *)
+Definition stop_obs (l : limits) (minutes dur : Q) (p : opop) : bool :=
+  c_time l 0 minutes (kstate_of p) || c_gen l (kstate_of p) || c_stag l (kstate_of p) || c_stagtime_d l dur.
+
+Fixpoint counters_ok (prev_gen prev_stag : nat) (ps : list opop) : bool :=
+  match ps with
+  | [] => true
+  | p :: r => Nat.eqb (p_gen p) (S prev_gen)
+              && (Nat.eqb (p_stag p) 0 || Nat.eqb (p_stag p) (S prev_stag))
+              && counters_ok (p_gen p) (p_stag p) r
+  end.
+
+Fixpoint last_two (ps : list opop) : option (opop * opop) :=
+  match ps with
+  | [a; b] => Some (a, b)
+  | _ :: r => last_two r
+  | [] => None
+  end.
+
+Definition count_evolved (ps : list opop) : nat := List.length (filter is_evolved ps).
+
+Definition ragree (r : orun) : bool :=
+  let l := r_lim r in
+  if negb (r_ok r) then true else
+  if r_populational r then
+    counters_ok 0 0 (r_pops r)
+    (* every evolve step was started after a stop test that answered False *)
+    && forallb (fun ab => negb (stop_obs l (p_minutes (fst ab)) (p_stagdur (fst ab)) (fst ab))) (step_pairs (r_pops r))
+    (* the loop was left because the stop test answered True (or a step gave up) *)
+    && match last_two (r_pops r) with
+       | Some (a, fin) => plabel_eqb (p_label fin) PFinal
+                          && (r_broke r || stop_obs l (p_minutes fin) (p_stagdur fin) a)
+       | None => false
+       end
+    && Nat.eqb (r_started r) (count_evolved (r_pops r) + (if r_broke r then 1 else 0))
+    && list_eqb Nat.eqb (map p_size (filter is_evolved (r_pops r))) (r_evolved_sizes r)
+  else
+    (* random search: all intermediate tests of the generation bound were False, the last stop test True *)
+    match nog l with Some n => Nat.leb (r_iters r) n | None => true end
+    && rs_stop_test l 0 (r_end_minutes r) (r_iters r)
+    && Nat.leb (List.length (r_evolved_sizes r)) (r_iters r).
+
+Fixpoint all_but_last {A : Type} (l : list A) : list A :=
+  match l with
+  | [] => []
+  | [_] => []
+  | x :: r => x :: all_but_last r
+  end.
+
+(* --- the property's clauses on an observed run; each clause separately --- *)
+Definition h_accepts (r : orun) : bool := r_ok r.
+
+Definition h_generations (r : orun) : bool :=
+  match nog (r_lim r) with
+  | Some n => Nat.leb (List.length (r_evolved_sizes r)) n && Nat.leb (r_started r) n && Nat.leb (r_iters r) n
+  | None => true
+  end.
+
+Definition h_stagnation (r : orun) : bool :=
+  forallb (fun ab =>
+     match esi (r_lim r) with Some (S m) => Nat.ltb (p_stag (fst ab)) (S m) | _ => true end
+     && match est (r_lim r) with Some e => Qltb (p_stagdur (fst ab)) e | None => true end)
+    (step_pairs (r_pops r)).
+
+Definition h_time (r : orun) : bool :=
+  match tmo (r_lim r) with
+  | Some t =>
+      forallb (fun ab => Qltb 0 t && Qltb (p_minutes (fst ab)) t) (step_pairs (r_pops r))
+      && forallb (fun m => Qltb 0 t && Qltb m t) (all_but_last (r_call_minutes r))
+  | None => true
+  end.
+
+Definition h_zero_budget (r : orun) : bool :=
+  match tmo (r_lim r) with
+  | Some t => implb (Qle_bool t 0)
+                (Nat.eqb (List.length (r_evolved_sizes r)) 0 && Nat.eqb (r_started r) 0 && Nat.eqb (r_iters r) 0
+                 && Z.leb (r_wall_ms r) PROMPT_MS)
+  | None => true
+  end.
+
+Definition h_max_pop (r : orun) : bool :=
+  match truthy_max (r_maxpop r) with
+  | Some m => forallb (fun n => Z.leb (Z.of_nat n) m) (r_evolved_sizes r)
+  | None => true
+  end.
+
+Definition h_adaptive (r : orun) : bool :=
+  if r_adaptive r then
+    forallb (fun p => implb (is_evolved p)
+       match truthy_max (r_maxpop r) with
+       | Some m => implb (Z.leb MIN_POP_SIZE m) (Z.leb MIN_POP_SIZE (p_popsize p) && Z.leb (p_popsize p) m)
+       | None => Z.leb MIN_POP_SIZE (p_popsize p)
+       end) (r_pops r)
+  else true.
+
+Definition rholds (r : orun) : bool :=
+  h_accepts r && h_generations r && h_stagnation r && h_time r && h_zero_budget r && h_max_pop r && h_adaptive r.
+
+Definition rcheck (r : orun) : list bool :=
+  [ragree r; h_accepts r; h_generations r; h_stagnation r; h_time r; h_zero_budget r; h_max_pop r; h_adaptive r].
+
+(* ---- observed GOLEM(...) facade ---- *)
+Record oapi := {
+  a_timeout : aval;
+  a_njobs : aval;
+  a_kwargs : list (string * aval);
+  a_raised : option exn;                             (* constructing GOLEM raised *)
+  a_where : list (string * (bool * bool * bool));    (* per given key: value found in gp / gen / requirements *)
+  a_req_timeout : option aval;                       (* requirements.timeout *)
+  a_njobs_in : bool * bool * bool;                   (* the given n_jobs found in gp / gen / requirements *)
+  a_dynamic : bool }.
+
+Definition tri_eqb (a b : bool * bool * bool) : bool :=
+  match a, b with (a1, a2, a3), (b1, b2, b3) => Bool.eqb a1 b1 && Bool.eqb a2 b2 && Bool.eqb a3 b3 end.
+
+Definition found (o : api_out) (d : dest) (k : string) (v : aval) : bool :=
+  opt_aval_eqb (lookup_in d o k) (Some v).
+
+Definition aagree (a : oapi) : bool :=
+  match facade (a_timeout a) (a_njobs a) (a_kwargs a), a_raised a with
+  | Raise e, Some e' => exn_eqb e e'
+  | Ok o, None =>
+      list_eqb2 (fun kv w => String.eqb (fst kv) (fst w)
+                               && tri_eqb (found o DGp (fst kv) (snd kv), found o DGen (fst kv) (snd kv),
+                                           found o DReq (fst kv) (snd kv)) (snd w))
+                  (a_kwargs a) (a_where a)
+      && opt_aval_eqb (lookup "timeout" (to_req o)) (a_req_timeout a)
+      && tri_eqb (found o DGp "n_jobs" (a_njobs a), found o DGen "n_jobs" (a_njobs a),
+                  found o DReq "n_jobs" (a_njobs a)) (a_njobs_in a)
+      && Bool.eqb (dynamic_req o) (a_dynamic a)
+  | _, _ => false
+  end.
+
+Definition exactly_one (w : bool * bool * bool) : bool :=
+  match w with
+  | (true, false, false) | (false, true, false) | (false, false, true) => true
+  | _ => false
+  end.
+
+(* clauses on the observed facade: accepted; every given limit key sits unchanged in exactly one
+   parameter object; the timeout arrives as the same duration; the worker count arrives *)
+Definition a_accepts (a : oapi) : bool := match a_raised a with None => true | Some _ => false end.
+Definition a_keys (a : oapi) : bool :=
+  forallb (fun w => implb (mem_s (fst w) (map fst limit_keys)) (exactly_one (snd w))) (a_where a).
+Definition a_timeout_ok (a : oapi) : bool :=
+  match a_raised a, a_timeout a with
+  | Some _, _ => true
+  | None, ANum q => opt_aval_eqb (a_req_timeout a) (Some (ADelta q))
+  | None, ADelta q => opt_aval_eqb (a_req_timeout a) (Some (ADelta q))
+  | None, _ => true
+  end.
+Definition a_njobs_ok (a : oapi) : bool :=
+  match a_raised a with Some _ => true | None => exactly_one (a_njobs_in a) end.
+
+Definition aholds (a : oapi) : bool := a_accepts a && a_keys a && a_timeout_ok a && a_njobs_ok a.
+Definition acheck (a : oapi) : list bool := [aagree a; a_accepts a; a_keys a; a_timeout_ok a; a_njobs_ok a].
+
+(* the executable form of the whole property on any observation *)
+Inductive observation := ObsUnit (c : ucase) | ObsRun (r : orun) | ObsApi (a : oapi).
+Definition agree (o : observation) : bool :=
+  match o with ObsUnit c => uagree c | ObsRun r => ragree r | ObsApi a => aagree a end.
+Definition holds_b (o : observation) : bool :=
+  match o with ObsUnit c => uholds c | ObsRun r => rholds r | ObsApi a => aholds a end.
